@@ -1138,7 +1138,7 @@ struct aws_byte_cursor aws_byte_cursor_advance_nospec(struct aws_byte_cursor *co
 
     struct aws_byte_cursor rv;
 
-    if (len <= cursor->len && len <= (SIZE_MAX >> 1) && cursor->len <= (SIZE_MAX >> 1)) {
+    if (len <= cursor->len && len <= (SIZE_MAX >> 1) && cursor->len < (SIZE_MAX >> 1)) {
         /*
          * If we're speculating past a failed bounds check, null out the pointer. This ensures
          * that we don't try to read past the end of the buffer and leak information about other
